@@ -292,6 +292,7 @@ func TestC07(t *testing.T) {
 			"oracle: model = per-client (version, compression, current keyspace under Cassandra's identifier rule); every data request must arrive on a backend connection with that keyspace/version/compression, USE replies SET_KEYSPACE with the folded name or the backend's error and leaves the model unchanged; "+
 			"non-trivial = >=2 clients hold different keyspaces at a data request, a data request after a failed USE, or a parallel USE; distinct by case content")
 	defer finish(t, rec)
+	rec.SetJournalAll(true)
 	rec.Assume("the fake backend applies Cassandra's identifier rule to USE and records the keyspace of every connection")
 	runProp(t, rec, "history", perShard(evid.Pick(4000, 80000)), func(rt *rapid.T) c07Case {
 		c := c07Gen(rt)
